@@ -9,7 +9,7 @@ META = {
 }
 
 
-def classify(ev):
+def classify(ev, opened=None):
     if ev.get("e") == "Action" and ev.get("kind") in ("update", "insertq") and \
             "too many writes" in ev.get("err", ""):
         return "statement-reads-own-writes"
